@@ -660,6 +660,11 @@ impl ScriptedController {
     async fn discharge(&mut self, id: &[u8], fail: bool) -> Option<V> {
         self.control(&refcodec::described(DISCHARGE, vec![V::Bin(id.to_vec()), V::Bool(fail)])).await
     }
+    /// a commit as some controllers write it: the fail field (default false) left out or null
+    async fn discharge_default(&mut self, id: &[u8], explicit_null: bool) -> Option<V> {
+        let fields = if explicit_null { vec![V::Bin(id.to_vec()), V::Null] } else { vec![V::Bin(id.to_vec())] };
+        self.control(&refcodec::described(DISCHARGE, fields)).await
+    }
     async fn post(&mut self, id: &[u8], uid: u64) {
         let did = self.next_id;
         self.next_id += 1;
@@ -772,7 +777,12 @@ pub async fn run_scripted_controller() {
             };
             c.post(&id, 501).await;
             let first_fail = choice(2) == 1;
-            let st = c.discharge(&id, first_fail).await;
+            let st = if !first_fail && choice(2) == 1 {
+                sim::probe("discharge-with-fail-left-out");
+                c.discharge_default(&id, choice(2) == 1).await
+            } else {
+                c.discharge(&id, first_fail).await
+            };
             if st.as_ref().map(|s| s.descriptor_code() != Some(0x24)).unwrap_or(true) {
                 sim::violation("discharge-failed", format!("first discharge answered with {:?}", st));
                 return;
